@@ -18,7 +18,7 @@ EXPLANATION = (
     "S6 a failed or unobtainable job does not leave a pending slot (both synchronous schedulers: the 'no suggestion' path and "
     "on_trial_error report the slot as failed; milestone results are returned to the bracket before the pending entry is "
     "removed); S7 brackets cycle through the configured rung systems (offset = bracket_id mod number of offsets) in both "
-    "bracket managers; S8 the failure sentinel exists in the numerical library. NOT decided: the rung sizes of the "
+    "bracket managers; S8 the failure sentinel exists in the numerical library. S3 also: a complete rung is left behind (rung index + 1, hand-out position 0) before the next rung is built; S6 also: _suggest resumes exactly when the slot names a trial (that trial, with its recorded configuration), starts a new trial otherwise, registers every suggestion as pending with its slot and writes a new trial's id into the slot; DEHB keeps the same books in its helper methods (pending entry, record level / metric reset on promotion, reported metric recorded, slot returned with the winner's id and metric). NOT decided: the rung sizes of the "
     "geometric system; 'exactly the best ones' under ties.")
 
 FLOOR = {"S1": 4, "S2": 3, "S3": 2, "S4": 3, "S5": 1, "S6": 5, "S7": 2, "S8": 3, "S9": 2}
